@@ -62,6 +62,17 @@ theorem state_rt : ∀ (c : Col) (r : Bytes), decState c.ty (encState c [] ++ r)
     simp only [Col.ty, decState, encState]
     rw [encState_append b, List.append_assoc, bind_ok' (iha _)]
     exact ihb r
+  | versioned v c ih =>
+    intro r
+    simp only [Col.ty, decState, encState, List.nil_append]
+    rw [encState_append c, List.append_assoc]
+    have hle : Parser.le 8 (i64le v ++ (encState c [] ++ r)) = .ok (v % 256 ^ 8, encState c [] ++ r) := le_put_mod 8 v _
+    rw [bind_ok' hle]
+    have hg : (v % 256 ^ 8 == v % 18446744073709551616) = true := by
+      have : (256 : Nat) ^ 8 = 18446744073709551616 := by decide
+      rw [this]; simp
+    rw [hg, bind_ok' (guard_true _ _)]
+    exact ih r
   | _ => intro r; simp [Col.ty, decState, encState, Parser.pure]
 
 /-- what a column must satisfy to be sent in a block of `rows` rows -/
